@@ -351,7 +351,39 @@ pub fn run_check<C: Check>(check: C, args: &Args) -> i32 {
             }
         };
         regress_replayed += 1;
-        match run_case(&*check, &case) {
+        // run under a watchdog: a regression of a repaired hang must not hang the check itself
+        let outcome = {
+            let check2 = Arc::clone(&check);
+            let case2 = case.clone();
+            let h = std::thread::Builder::new().stack_size(64 << 20).spawn(move || run_case(&*check2, &case2)).expect("spawn");
+            let t_start = Instant::now();
+            let limit = Duration::from_secs(check.case_timeout_s());
+            while !h.is_finished() && t_start.elapsed() < limit {
+                std::thread::sleep(Duration::from_millis(5));
+            }
+            if h.is_finished() {
+                Some(h.join().unwrap_or_else(|_| Err(String::from("regression replay thread panicked"))))
+            } else {
+                None
+            }
+        };
+        let outcome = match outcome {
+            Some(o) => o,
+            None => {
+                let confirmed = confirm_hang(id, &path, Duration::from_secs(check.case_timeout_s() * 3));
+                use std::io::Write;
+                if confirmed && check.hang_is_violation() {
+                    println!("VIOLATION property={} replay={}", id, path.display());
+                    println!("key=hang");
+                    println!("regression case did not return (confirmed in a fresh process)");
+                    let _ = std::io::stdout().flush();
+                    std::process::exit(1);
+                }
+                eprintln!("INCONCLUSIVE property={} regression case {} did not return within {} s", id, path.display(), check.case_timeout_s());
+                std::process::exit(2);
+            }
+        };
+        match outcome {
             Err(e) => {
                 eprintln!("INTERNAL: {} (replaying {})", e, path.display());
                 return 2;
@@ -539,6 +571,17 @@ pub fn run_check<C: Check>(check: C, args: &Args) -> i32 {
             let v = Violation::new("hang", format!("a single case did not return within {} s wall clock", timeout.as_secs()));
             let path = write_replay(&root, id, args.seed, &v, &case_v, "hang-");
             let confirmed = confirm_hang(id, &path, Duration::from_secs(check.case_timeout_s() * 3));
+            let mut path = path;
+            if confirmed {
+                // a hanging case cannot be shrunk in-process: delta-debug the arrays of the JSON case in subprocesses
+                let min_v = minimize_hang(id, &root, case_v.clone(), Duration::from_secs(3), Duration::from_secs(240));
+                if min_v != case_v {
+                    let p2 = write_replay(&root, id, args.seed, &v, &min_v, "hang-min-");
+                    if confirm_hang(id, &p2, Duration::from_secs(check.case_timeout_s() * 3)) {
+                        path = p2;
+                    }
+                }
+            }
             hang = Some((path, confirmed));
             break;
         }
@@ -720,6 +763,100 @@ fn confirm_hang(id: &str, path: &Path, limit: Duration) -> bool {
             Err(_) => return false,
         }
     }
+}
+
+fn array_paths(v: &Value, prefix: &mut Vec<String>, out: &mut Vec<Vec<String>>) {
+    match v {
+        Value::Array(a) => {
+            out.push(prefix.clone());
+            for (i, x) in a.iter().enumerate() {
+                prefix.push(i.to_string());
+                array_paths(x, prefix, out);
+                prefix.pop();
+            }
+        }
+        Value::Object(o) => {
+            for (k, x) in o.iter() {
+                prefix.push(k.clone());
+                array_paths(x, prefix, out);
+                prefix.pop();
+            }
+        }
+        _ => {}
+    }
+}
+
+fn get_path_mut<'a>(v: &'a mut Value, path: &[String]) -> Option<&'a mut Value> {
+    let mut cur = v;
+    for seg in path {
+        cur = match cur {
+            Value::Array(a) => a.get_mut(seg.parse::<usize>().ok()?)?,
+            Value::Object(o) => o.get_mut(seg)?,
+            _ => return None,
+        };
+    }
+    Some(cur)
+}
+
+/// ddmin over every array of a JSON case; a candidate is kept if the replay subprocess still
+/// fails to return within `per_try`.
+fn minimize_hang(id: &str, root: &Path, case_v: Value, per_try: Duration, budget: Duration) -> Value {
+    let t0 = Instant::now();
+    let tmp = root.join("out").join("replays").join(id).join(format!("hang-try-{}.json", std::process::id()));
+    let still_hangs = |v: &Value| -> bool {
+        let body = json!({ "property": id, "case": v });
+        if std::fs::write(&tmp, serde_json::to_string(&body).unwrap()).is_err() {
+            return false;
+        }
+        confirm_hang(id, &tmp, per_try)
+    };
+    let mut best = case_v;
+    let mut progress = true;
+    while progress && t0.elapsed() < budget {
+        progress = false;
+        let mut paths = Vec::new();
+        array_paths(&best, &mut Vec::new(), &mut paths);
+        // longest arrays first
+        for path in paths {
+            let len = match get_path_mut(&mut best, &path) {
+                Some(Value::Array(a)) => a.len(),
+                _ => continue,
+            };
+            let mut chunk = len.max(1) / 2;
+            while chunk >= 1 && t0.elapsed() < budget {
+                let mut start = 0usize;
+                loop {
+                    let cur_len = match get_path_mut(&mut best, &path) {
+                        Some(Value::Array(a)) => a.len(),
+                        _ => 0,
+                    };
+                    if start >= cur_len {
+                        break;
+                    }
+                    let mut cand = best.clone();
+                    if let Some(Value::Array(a)) = get_path_mut(&mut cand, &path) {
+                        let end = (start + chunk).min(a.len());
+                        a.drain(start..end);
+                    }
+                    if still_hangs(&cand) {
+                        best = cand;
+                        progress = true;
+                    } else {
+                        start += chunk;
+                    }
+                    if t0.elapsed() >= budget {
+                        break;
+                    }
+                }
+                if chunk == 1 {
+                    break;
+                }
+                chunk /= 2;
+            }
+        }
+    }
+    let _ = std::fs::remove_file(&tmp);
+    best
 }
 
 /// Monotone index mapping (shrinks well): maps a u16 selector onto 0..len.
